@@ -59,6 +59,8 @@ pub enum TypeErrorEnum {
     UnknownStructField(String, String),
     /// The struct constructor is missing the specified field.
     MissingStructField(String, String),
+    /// The struct definition or constructor names the specified field more than once.
+    DuplicateStructField(String, String),
     /// No enum declaration with the specified name exists.
     UnknownEnum(String, String),
     /// The enum exists, but no variant declaration with the specified name was found.
@@ -169,6 +171,9 @@ impl std::fmt::Display for TypeErrorEnum {
             }
             TypeErrorEnum::DuplicateFnParam(name) => f.write_fmt(format_args!(
                 "The function parameter '{name}' is declared multiple times"
+            )),
+            TypeErrorEnum::DuplicateStructField(struct_name, field) => f.write_fmt(format_args!(
+                "The field '{field}' of struct '{struct_name}' is given multiple times"
             )),
             TypeErrorEnum::ExpectedBoolOrNumberType(ty) => f.write_fmt(format_args!(
                 "Expected a Boolean or number type, but found {ty}"
@@ -1664,7 +1669,15 @@ impl UntypedExpr {
                 if let Some((_, struct_def)) = defs.structs.get(name.as_str()) {
                     let mut errors = vec![];
                     let mut typed_fields = Vec::with_capacity(fields.len());
-                    for (field_name, field_value) in fields {
+                    for (i, (field_name, field_value)) in fields.iter().enumerate() {
+                        if fields[..i].iter().any(|(f, _)| f == field_name) {
+                            // every field is given exactly once (the compiler keeps only one value)
+                            let e = TypeErrorEnum::DuplicateStructField(
+                                name.clone(),
+                                field_name.clone(),
+                            );
+                            errors.push(Some(TypeError::new(e, meta)));
+                        }
                         if let Some(expected_type) = struct_def.get(field_name.as_str()) {
                             match field_value.type_check(top_level_defs, env, fns, defs) {
                                 Ok(mut typed_field) => {
